@@ -30,7 +30,7 @@ fn chans(full: bool) -> Vec<String> {
 }
 
 fn nicks(full: bool) -> Vec<String> {
-    let mut v: Vec<String> = ["me", "bob", "zed", "ghost", "bob,bob", "me,bob", "bob,me", "me,me"].iter().map(|s| s.to_string()).collect();
+    let mut v: Vec<String> = ["me", "bob", "zed", "ghost", "bob,bob", "me,bob", "bob,me", "me,me", "bob,yan,bob", "yan,bob", "bob,yan,me,yan"].iter().map(|s| s.to_string()).collect();
     if full {
         v.extend(["", "é", "*?*a*", "a.b", "ghost,ghost", "bob,ghost,bob"].iter().map(|s| s.to_string()));
         v.push(long(300));
@@ -262,6 +262,9 @@ fn session_scn(sess: Sess, full: bool, pairs: bool) -> ChatScn {
     s.slots = 4;
     s.prelude.push((2, "JOIN #z".into()));
     s.prelude.push((3, "JOIN #z".into()));
+    // bystander yan is also a plain member of #c (so that lists can name two
+    // different members of the actor's channel)
+
     match sess {
         Sess::Unregistered | Sess::MidCap | Sess::Alone => {
             s.prelude.push((1, "JOIN #c".into()));
@@ -287,6 +290,7 @@ fn session_scn(sess: Sess, full: bool, pairs: bool) -> ChatScn {
             }
         }
     }
+    s.prelude.push((2, "JOIN #c".into()));
     let lines = grammar(full);
     let core: Vec<String> = if pairs { core_lines() } else { vec![] };
     let raws = raw_payloads();
